@@ -100,9 +100,12 @@ class MemBlockingControl(BaseBlockingControl):
         with self._lock:
             candidates = list(self._ready)
         for inv_id in candidates:
-            if self.app.orchestrator.get_invocation_status(
-                inv_id
-            ).is_available_for_run():
+            try:
+                status = self.app.orchestrator.get_invocation_status(inv_id)
+            except KeyError:
+                # waited on, but unknown to the orchestrator: nothing to run
+                continue
+            if status.is_available_for_run():
                 max_num_invocations -= 1
                 yield inv_id
                 if max_num_invocations == 0:
